@@ -7,7 +7,8 @@ class Equivalence:
     if name:
       return name.__hash__()
     else:
-      return NotImplemented
+      # lines without identifier: equal lines have the same record type
+      return hash(self.record_type)
 
   def __eq__(self, o):
     """
